@@ -92,6 +92,14 @@ func c12Ops() []c12op {
 			ok := p != nil && p.Bytes() == src
 			return fmt.Sprint(ok, err, err2, err3, err4, bytes.Equal(out.Bytes(), hb), s != nil)
 		}},
+		{"ipa.NewPrecomputedWeights + barycentric evaluation", true, func(c *ipa.IPAConfig, seed int64, slot int) string {
+			pw := ipa.NewPrecomputedWeights()
+			z := frFromBig(bi(int64(1000 + slot)))
+			b := pw.ComputeBarycentricCoefficients(z)
+			f := frsFromBig(pick(polyAlphabet(seed), 12).V)
+			q := pw.DivideOnDomain(uint8(9+slot), f)
+			return frsDigest(b) + frsDigest(q) + fmt.Sprint(core.Fingerprint(pw))
+		}},
 		{"Commit(sparse)", true, func(c *ipa.IPAConfig, seed int64, slot int) string {
 			v := make([]fr.Element, 8)
 			v[slot] = frFromBig(prfR(seed, "c12", slot))
